@@ -28,7 +28,7 @@ ASSUMPTIONS = [
 ]
 
 NOW = datetime.datetime(2024, 3, 1, 12, 0, 3, 500000, tzinfo=datetime.timezone.utc)
-STREAMS = ('bbb', 'tears', 'synirr', 'synoff', 'synnot', 'synwild', 'synnum', 'syndef', 'syntrk')
+STREAMS = ('bbb', 'tears', 'synirr', 'synoff', 'synnot', 'synwild', 'synnum', 'syndef', 'syntrk', 'synzero')
 VOD_TEMPLATES = ('hand_made', 'manifest_a', 'manifest_b', 'manifest_e', 'manifest_ef', 'manifest_h', 'manifest_i',
                  'manifest_n')
 ODVOD_TEMPLATES = ('hand_made', 'manifest_vod_aiv')
